@@ -371,9 +371,15 @@ def from_ast(e: ast.AST, env: Env) -> Term:
         if fs in TRANSPARENT or fs.split('.')[-1] == 'cast':
             return from_ast(e.args[-1], env)
         # re-shapings that keep every element (the terms are elementwise / reductions over all elements)
+        if fs in ('np.broadcast_to', 'numpy.broadcast_to') and len(e.args) == 2 and not e.keywords:
+            return from_ast(e.args[0], env)          # the same values, repeated: elementwise terms do not see the difference
         if fs in ('np.ravel', 'np.atleast_1d', 'np.atleast_2d', 'np.ascontiguousarray', 'np.copy') and len(e.args) == 1 \
                 and all(k.arg in ('order',) for k in e.keywords):
             return from_ast(e.args[0], env)
+        if isinstance(e.func, ast.Attribute) and e.func.attr == 'reshape' and len(e.args) == 1 and norm(e.args[0]) in ('-1', '(-1,)') \
+                and all(k.arg == 'order' for k in e.keywords) \
+                and not (isinstance(e.func.value, ast.Name) and e.func.value.id in ('np', 'numpy')):
+            return from_ast(e.func.value, env)
         if isinstance(e.func, ast.Attribute) and e.func.attr in ('ravel', 'flatten', 'copy') and not e.keywords \
                 and len(e.args) <= 1 and all(isinstance(a_, ast.Constant) for a_ in e.args) \
                 and not (isinstance(e.func.value, ast.Name) and e.func.value.id in ('np', 'numpy', 'math', 'copy')):
@@ -663,6 +669,14 @@ def local_terms(model: Optional[Model], fn: FuncInfo, inline: Optional[Set[str]]
                     counts[x.id] = counts.get(x.id, 0) + 2
     env = Env(model, fn, inline, None, opaque)
     out: Dict[str, Term] = {}
+    # `a, b = np.broadcast_arrays(x, y)`: for elementwise terms a is x and b is y (only when that is the single binding of a and b)
+    bcast: Dict[int, List[Tuple[str, ast.expr]]] = {}
+    for n in walk_no_nested(fn.node):
+        if isinstance(n, ast.Assign) and len(n.targets) == 1 and isinstance(n.targets[0], (ast.Tuple, ast.List)) \
+                and isinstance(n.value, ast.Call) and norm(n.value.func) in ('np.broadcast_arrays', 'numpy.broadcast_arrays') \
+                and not n.value.keywords and len(n.value.args) == len(n.targets[0].elts) \
+                and all(isinstance(t_, ast.Name) for t_ in n.targets[0].elts):
+            bcast[id(n)] = [(t_.id, a_) for t_, a_ in zip(n.targets[0].elts, n.value.args)]
     # names (re)bound ONLY by top-level statements of the function body follow sequential semantics (the value after the
     # last of them); augmented assignments included
     nested: Set[str] = set()
@@ -692,6 +706,17 @@ def local_terms(model: Optional[Model], fn: FuncInfo, inline: Optional[Set[str]]
                 out[n.target.id] = t
             continue
         tg = n.targets[0] if isinstance(n, ast.Assign) else n.target
+        if id(n) in bcast:
+            vals_ = []
+            try:
+                vals_ = [(nm_, from_ast(a_, env)) for nm_, a_ in bcast[id(n)]]
+            except Unknown:
+                vals_ = []
+            for nm_, t_ in vals_:
+                if counts.get(nm_, 0) == 1 or (nm_ in sequential and id(n) in top_level):
+                    env.vars[nm_] = t_
+                    out[nm_] = t_
+            continue
         if not isinstance(tg, ast.Name) or n.value is None:
             continue
         if counts.get(tg.id, 0) != 1 and not (tg.id in sequential and id(n) in top_level):
